@@ -1583,7 +1583,7 @@ def _t_eval(target, _t, scope):
                 # TODO: so many try/except -- could scope[TargetRegistry] stuff be cached on type?
                 _extend_children(nxt, cur, get_handler)
             elif op == 'X':
-                sofar = set()
+                sofar = {id(cur)}  # cur itself is expanded right here
                 _extend_children(nxt, cur, get_handler)
                 for item in nxt:
                     if id(item) not in sofar:
